@@ -49,7 +49,7 @@ def run_c12(tier, seed):
            "traces_validated_against_impl": rep["cases"], "exhaustive": True,
            "samples": rep["samples"][:4] or ["none"], "methods_registered": len(methods),
            "cases_expected_executed": rep["expected_executed"], "cases_expected_refused": rep["expected_refused"],
-           "forms": ["call", "notification", "batch_first", "batch_mid", "batch_last", "batch_notification"],
+           "forms": ["call", "notification", "batch_first", "batch_mid", "batch_last", "batch_notification", "batch_after_invalid", "batch_before_invalid"],
            "explanation": "the whole table (every registered method x 6 forms x 5 headers x auth on/off) over HTTP against "
                           "a server started by the public start(); state digest before/after every request",
            "checker_cmd": "tlc AuthGate.tla ; vh auth"}
